@@ -452,6 +452,13 @@ struct Mixed {
                 int32 sds = SDcreate(sdid, nm.c_str(), nt, rank, dims);
                 if (MX("SDcreate", sds == FAIL))
                     return true;
+                if (o.arg(5) % 2 == 0 && dims[0] != SD_UNLIMITED) {
+                    // named first dimension; the names of the five datasets are made of the same 4-byte words in different
+                    // orders (equal length, equal under an additive checksum, different strings)
+                    static const char *dn[5] = {"lat_lon_alt_", "lat_alt_lon_", "lon_lat_alt_", "lon_alt_lat_", "alt_lat_lon_"};
+                    MX("SDsetdimname", SDsetdimname(SDgetdimid(sds, 0), dn[idx]) == FAIL);
+                    ctx.probe("sd-named-dimension");
+                }
                 if (o.arg(6) == 2) {
                     HDF_CHUNK_DEF cd;
                     memset(&cd, 0, sizeof cd);
